@@ -17,7 +17,7 @@ Section Symbols.
 Variables snake camel screaming : str -> str.
 
 Definition decl_value_names (name : str) (e : enum) : list str :=
-  zero_value_name screaming name e :: map (opt_value_name (enum_pfx screaming name e)) (declared_opts e).
+  (enum_pfx screaming name e ++ b "UNSPECIFIED") :: map (opt_value_name (enum_pfx screaming name e)) (strict_opts screaming name e).
 
 Definition decl_enum_syms (scope name : str) (e : enum) : list str :=
   qual scope name :: map (qual scope) (decl_value_names name e).
